@@ -1,6 +1,6 @@
-CONSTANTS MaxLen = 3  MaxArgs = 2  MaxLen2 = 4  Bug = ""  Emit = TRUE
-CONSTANT Families = {"scan", "val"}
-CONSTANT Alphabet <- MCAlphabet  Alphabet2 <- MCAlphabet2Quick  ScanVals <- MCScanVals  Vals <- MCVals  WidthStrs <- MCWidthStrsQuick
+CONSTANTS MaxLen = 3  MaxArgs = 2  MaxLen2 = 4  Bug = ""  AdjLen = 3  Emit = TRUE
+CONSTANT Families = {"scan", "val", "adj"}
+CONSTANT Alphabet <- MCAlphabet  Alphabet2 <- MCAlphabet2Quick  ScanVals <- MCScanVals  Vals <- MCVals  AdjTokens <- MCAdjTokens  WidthStrs <- MCWidthStrsQuick
 INIT Init
 NEXT Next
 INVARIANT NoMismatch
